@@ -9,8 +9,9 @@ import random
 import xml.etree.ElementTree as ET
 from typing import Any, Dict, Iterable, List
 
-from harness.core import Case, Finding, VERIF
-from harness.props._doc import DocCheck, Gen, r_doc, all_paths, node_at, random_mutation
+from harness.core import Case, Finding, OUTSIDE, VERIF
+from harness.props._doc import (DocCheck, Gen, r_doc, all_paths, node_at, random_mutation, mark_nonconformant,
+                                apply_mutation)
 from harness.props.c01 import _kids, _points, _text_equiv, read_line, read_doc, has_content
 
 CORPUS = os.path.join(VERIF, 'harness', 'corpus', 'C08')
@@ -27,6 +28,44 @@ def read_tables(xml: str):
                           'lines': [read_line(l) for l in _kids(c, 'TextLine')]})
         tables.append({'id': t.get('id'), 'cells': cells})
     return tables
+
+
+def listing_in_quantifier(rc: List[List[int]]) -> bool:
+    """the statement's quantifier on the (row, col) pairs of a TableRegion's cells IN FILE ORDER: "cells are listed in
+    row-major order" (row by row, the columns of a row left to right: the pairs ascend strictly in lexicographic
+    order) "and … some row is complete" (with c = the size of the fullest row, some row holds the columns 0 … c-1 and
+    no cell lies at a column >= c); r >= 1, c >= 1"""
+    if not rc or any(a >= b for a, b in zip(rc, rc[1:])):
+        return False
+    rows: Dict[int, List[int]] = {}
+    for r, c in rc:
+        rows.setdefault(r, []).append(c)
+    ncols = max(len(v) for v in rows.values())
+    return all(0 <= c < ncols for v in rows.values() for c in v) and any(v == list(range(ncols)) for v in rows.values())
+
+
+def tree_tables_in_quantifier(tree) -> bool:
+    """every TableRegion of an element tree lists its cells as the quantifier says (cells without integer row / col
+    are caught by _doc.nonconformant)"""
+    ok = True
+
+    def go(n):
+        nonlocal ok
+        if n['t'] == 'TableRegion':
+            rc = []
+            for k in n['c']:
+                if k['t'] == 'TableCell':
+                    a = dict(map(tuple, k['a']))
+                    try:
+                        rc.append([int(a['row']), int(a['col'])])
+                    except (KeyError, ValueError):
+                        return
+            if not listing_in_quantifier(rc):
+                ok = False
+        for k in n['c']:
+            go(k)
+    go(tree)
+    return ok
 
 
 def words_of_line(l) -> int:
@@ -63,7 +102,11 @@ class C08(DocCheck):
         'next to text regions; under RowMajor (columns < c, strictly ascending within a row, some row complete): one row per '
         'distinct row index, shape = (#rows, c), table[i][j] = the cell with those indices or the empty placeholder, values '
         'rows x c with the space-joined line texts / "", cell and line counts equal to the source; NOT proved (sampled by '
-        'the oracle only): the word count of stats, scan.stats, and that shape / values survive the JSON round trip (C06)')
+        'the oracle only): the word count of stats, scan.stats, and that shape / values survive the JSON round trip (C06); '
+        'correspondence: tables whose cells are NOT listed in row-major order (pairs (row, col) strictly ascending in file '
+        'order) or that have no complete row, and mutated tables that are no conformant TableRegion any more, are outside the '
+        'quantifier — the model (which mirrors first-occurrence grouping) is still run on them but a difference is recorded '
+        'in the evidence only; two rejections agree whatever the exception class; extra scan.metadata keys are ignored')
     assumptions = [
         'the C01 model of xmltodict and of the text-line parser (shared; validated on the same documents)',
         'the hull routine is a function of its input point list (row coordinates; C09)',
@@ -159,8 +202,14 @@ class C08(DocCheck):
             if kind == 'no-text' and t['cells']:
                 victim = rng.choice(t['cells'])
                 victim['lines'] = [dict(tline(), te=None)]
-            out.append(Case('doc', {'src': page([t]), 'fname': 'tab_%d.xml' % next(seq), 'seed': rng.randrange(10 ** 9)},
-                            ['outside', 'outside:' + kind]))
+            # 'outside': not judged by the oracle (as before).  core.OUTSIDE (a difference between model and code is
+            # recorded, not a broken obligation) ONLY when the statement's quantifier really excludes the table: cells
+            # not in row-major order, or no complete row.  A cell line without text stays compared exactly (the
+            # quantifier does not exclude it), and so does a shuffle / mask that happens to leave the listing lawful.
+            tags = ['outside', 'outside:' + kind]
+            if not listing_in_quantifier([[c['row'], c['col']] for c in t['cells']]):
+                tags.append(OUTSIDE)
+            out.append(Case('doc', {'src': page([t]), 'fname': 'tab_%d.xml' % next(seq), 'seed': rng.randrange(10 ** 9)}, tags))
         # -- malformed: a mutation inside the TableRegion element
         for _ in range(40 if tier == 'quick' else 800):
             src = page([table(2, 2, [[1, 1], [1, rng.choice([0, 1])]])])
@@ -173,6 +222,14 @@ class C08(DocCheck):
                 m = None
             if m is not None:
                 out.append(Case('mut', {'src': src, 'fname': 'tab_%d.xml' % next(seq), 'mut': m}, ['malformed', 'mut:' + m['op']]))
+        # mutated tables: outside the quantifier when the tree is no conformant document any more (cell without integer
+        # row / col, line without Coords, repeated id …) or when the mutation (a cell deleted / duplicated, a row / col
+        # rewritten) leaves a listing that is not row-major with a complete row
+        mark_nonconformant(out)
+        for c in out:
+            if c.kind == 'mut' and OUTSIDE not in c.tags and not tree_tables_in_quantifier(
+                    apply_mutation(r_doc(c.input['src']), c.input['mut'])):
+                c.tags += [OUTSIDE, 'listing-outside']
         return out
 
     def nontrivial(self, case: Case) -> bool:
